@@ -789,7 +789,7 @@ def run(ctx, proofs):
     counts = collections.Counter()
     stats = collections.defaultdict(list)
     seeds = [d for _, d in corpus_files()] + repo_snippets()
-    n_grammar, n_mut, n_bytes = (900, 500, 150) if not thorough else (45000, 40000, 10000)
+    n_grammar, n_mut, n_bytes = (900, 500, 150) if not thorough else (42000, 36000, 10000)
     cases = []
     # corpus first: every witness of a past failure
     for name, data in corpus_files():
